@@ -317,6 +317,7 @@ def gen_spec(H: Chooser, feat=None) -> dict:
     considered = [considered[i] for i in perm]
     return {"classes": classes, "start": start, "considered": considered,
             "future_annotations": bool(feat["future_annotations"] and H.draw(2)),
+            "inline_lambdas": bool(feat["future_annotations"] and H.draw(2)),
             "expansion_depthing": False}
 
 
@@ -347,11 +348,19 @@ def render_refinement(r, deps: list) -> str:
     if k == "Flaky":
         return f"Flaky({render_refinement(r[1], deps)})"
     if k == "Dependent2":
-        fn = f"_dep{len(deps)}"
         a, b = r[1].split(",")
+        if INLINE_LAMBDAS[0]:
+            return f"Dependent({r[1]!r}, lambda {a}, {b}: IntRange({a} - {b}, {a}))"
+        fn = f"_dep{len(deps)}"
         deps.append(f"def {fn}({a}, {b}):\n    return IntRange({a} - {b}, {a})")
         return f"Dependent({r[1]!r}, {fn})"
     if k == "Dependent":
+        if INLINE_LAMBDAS[0]:
+            # the documented idiom: the callable written as a lambda inside the annotation
+            expr = render_refinement(r[2][0][1], deps)
+            for key, rr in reversed(r[2]):
+                expr = f"({render_refinement(rr, deps)} if {r[1]} == {key!r} else {expr})"
+            return f"Dependent({r[1]!r}, lambda {r[1]}: {expr})"
         fn = f"_dep{len(deps)}"
         lines = [f"def {fn}({r[1]}):"]
         for key, rr in r[2]:
@@ -406,7 +415,11 @@ from sim.flaky import Flaky
 '''
 
 
+INLINE_LAMBDAS = [False]
+
+
 def render_source(spec) -> str:
+    INLINE_LAMBDAS[0] = bool(spec.get("inline_lambdas"))
     out = []
     if spec.get("future_annotations"):
         out.append("from __future__ import annotations")
